@@ -28,6 +28,7 @@ RULES = {
     "C17-B1": "header: formatted value == stored remaining == length parameter, no narrowing; '#', digit count, header_len + 2; header buffer in bounds",
     "C17-B2": "data call: remaining < len => -310, 0, no write; else remaining -= len before the write; counted only when remaining == 0",
     "C17-B3": "byte order: enum aliases, native probe, binary producer decision table, SCPI_Swap16/32/64 are byte reversals",
+    "C17-B7": "data call: the item count is taken only on evidence that a block was open (something more than remaining == 0 after the decrement guards it)",
     "C17-B6": "every function that announces a block emits its payload only through SCPI_ResultArbitraryBlockData; the one-shot call is header(len) then data(data, len) on every path",
     "C17-B5": "the remaining-length counter the refusal test reads is re-established (0) for every unit before its handler runs",
     "C17-B4": "each SCPI_ResultArray<T> passes sizeof(*array) of its own element type and the scalar writer of the same type",
@@ -201,6 +202,43 @@ def rule_b2(ck, prog):
                 probs.append("an accepting path does not test whether the block is complete")
             elif bool(incs) != zero[-1]:
                 probs.append("the block is counted as an item %s the announced length is used up" % ("before" if incs else "although not when"))
+    # C17-B7: `remaining == 0` after the decrement is also true when no block is open at all (a zero-length call after the
+    # block was completed, or with no header): the count must be guarded by something more on every counting path
+    def is_rem(x):
+        return (x.strip_all_casts().get("path") or "").endswith("->arbitrary_remaining")
+
+    def known_guard(a, after_dec):
+        mentions_rem = any(is_rem(x) for x in a.walk())
+        if a.k == "BinaryOperator" and a.get("op") in ("<", ">", "<=", ">=") and mentions_rem and \
+                any(x.get("path") == lenp for x in a.walk()):
+            return True     # the refusal comparison
+        if not after_dec:
+            return False    # a test of the counter BEFORE the decrement does tell an open block from none
+        if a.k == "BinaryOperator" and a.get("op") in ("==", "!=") and mentions_rem and C.const_of(a.child(1)) == 0:
+            return True     # the completion test
+        return is_rem(a) or (a.k == "UnaryOperator" and a.get("op") == "!" and is_rem(a.child(0)))
+    counting = unguarded = 0
+    for ps in sums:
+        after_dec, extra, counts = False, 0, False
+        for e in ps.events:
+            if e[0] == "store" and (C.store_target(e[1]).get("path") or "").endswith("->arbitrary_remaining"):
+                after_dec = True
+            elif e[0] == "store" and (C.store_target(e[1]).get("path") or "").endswith("->output_count"):
+                counts = True
+                break
+            elif e[0] == "branch" and not known_guard(e[1], after_dec):
+                extra += 1
+        if counts:
+            counting += 1
+            unguarded += 0 if extra else 1
+    st7 = K.site(f, "count-needs-open-block", 0)
+    if counting and unguarded:
+        ck.violated("C17-B7", st7, K.loc(f),
+                    "the data call counts a result item whenever the remaining length is 0 after it, also when no block is open: "
+                    "header(3), data(3), data(0) counts the block twice; data(0) with no header counts an item that was never written",
+                    {"counting_paths": counting, "guarded_only_by_remaining_eq_0": unguarded})
+    elif counting:
+        ck.holds("C17-B7", st7, K.loc(f), "%d counting paths, each guarded by more than remaining == 0" % counting)
     st = K.site(f, "accounting", 0)
     if probs:
         ck.violated("C17-B2", st, K.loc(f), sorted(set(probs))[0], {"all": sorted(set(probs))})
